@@ -97,9 +97,10 @@ CHECKS = {
         "symbolic selector applies one of 66 single-node faults (null / empty / dropped part) and, separately, 19 scalar fields (status key, parameter location/style/name, media-type key, schema type/format, "
         "reference text, security type/in/scheme, server URL, version ...) are arbitrary strings of 0..2 (3) bytes or a vocabulary keyword with its last two bytes arbitrary; (b) parser.pathID and parsePath with real "
         "url.Parse and pathParser on every byte string of 0..3 (5) bytes with and without a leading slash; (c) uri.NormalizeEscapedPath on every string of 0..6 (8) bytes; (d) jsonpointer.Resolve on arbitrary short pointers and on index tokens of up to 21 (22) digits. Cyclic parameter schemas are among the faults (unbounded recursion is reported when the native run dies of stack exhaustion). A path that exhausts the instruction budget "
-        "is replayed natively under a time limit and reported as non-termination only when the native build does not finish either. YAML/JSON decoding, the generator stages after the parser, time/memory "
-        "bounds and diagnostic positions are NOT decided.",
-   design="4 C11", technique="symbolic execution of go/ssa + SMT: no-panic/termination over symbolic fault selectors and short symbolic texts"),
+        "is replayed natively under a time limit and reported as non-termination only when the native build does not finish either. NOT solver-decided (concrete side-condition, like C02's build matrix): two documents (about 640 nodes) are damaged at every "
+        "node in turn (null / retyped; thorough also emptied / deleted: about 2400 documents) and sent through the WHOLE pipeline of the tree's generator - it must return a diagnostic or write a package that "
+        "builds; a panic is a violation. Time/memory bounds and diagnostic positions are NOT decided.",
+   design="4 C11", technique="symbolic execution of go/ssa + SMT: no-panic/termination over symbolic fault selectors and short symbolic texts; concrete whole-pipeline fault matrix as a side-condition"),
  "C08": dict(
    category="translation_validation",
    cmd="python3-vt /verif/harness/C08/check_c08.py",
